@@ -16,6 +16,10 @@ PROVED for every member (`c03_accepted_only_if_registry`).
 Not modelled (monitored on the real code by `TestDispatch` only): the data values themselves (digest before / after
 through the public API), the data-change *event* (the model's `W` marker is compared with the observed write event),
 write approval callbacks (C12), restricted-exchange payload rules (C02/C04).
+`InvF` (hypothesis of the history theorems): every entity a peer announces in the initial world is one of the
+announcement set `fresh` (true when all peers start disconnected).
+The gate and the registry are keyed by the exact (connection, entity address, feature number): an entity address that
+is a proper prefix of another is another key (non-vacuity example with [1] / [1,1] below).
 Hypothesis H-devaddr: distinct connected peers announce distinct device addresses (the code compares addresses, the
 model connections).
 -/
@@ -34,19 +38,20 @@ theorem c03_effect_only_if (w : W) (p : Nat) (d : Dg) (hch : (processCmd w p d).
     output of the step — over all connections — is exactly one error result to the writer: no subscriber is
     notified. Every member. -/
 theorem c03_denied_is_silent (w : W) (p : Nat) (d : Dg) (lf : LF) (rf : RF) (hsrc : srcF w p d = some rf)
-    (hdst : dstF w d = some lf) (hw : d.cls = .write) (hg : gateOk w p lf d = false) :
-    (processCmd w p d).1.written = w.written ∧ (processCmd w p d).2 = [(p, res d 1)] :=
-  Spine.Disp.c03_denied_is_silent w p d lf rf hsrc hdst hw hg
+    (hdst : dstF w d = some lf) (hw : d.cls = .write) (hg : gateOk w p lf d = false) (hnc : NoCrash w d) :
+    (processCmd w p d).1.written = w.written ∧ (processCmd w p d).1.data = w.data ∧
+      (processCmd w p d).2 = [(p, res d 1)] :=
+  Spine.Disp.c03_denied_is_silent w p d lf rf hsrc hdst hw hg hnc
 
 /-- Accepted: a write that passes the gate, of a function the feature holds, with a payload the update engine
     accepts (`bad = false`), is applied; exactly the subscribers of
     the written feature are notified, once each; the writer gets exactly the requested acknowledgement. -/
 theorem c03_accepted (w : W) (p : Nat) (d : Dg) (lf : LF) (rf : RF) (hsrc : srcF w p d = some rf)
     (hdst : dstF w d = some lf) (hw : d.cls = .write) (hg : gateOk w p lf d = true) (hnm : lf.nm = false)
-    (hf : lf.fds.contains d.fn = true) (hb : d.bad = false) :
+    (hf : lf.fds.contains d.fn = true) (hb : d.bad = false) (hnc : NoCrash w d) :
     (processCmd w p d).1.written = (d.dst, d.fn) :: w.written ∧
       (processCmd w p d).2 = notifs w d ++ (if d.ack then [(p, res d 0)] else []) :=
-  Spine.Disp.c03_accepted w p d lf rf hsrc hdst hw hg hnm hf hb
+  Spine.Disp.c03_accepted w p d lf rf hsrc hdst hw hg hnm hf hb hnc
 
 /-- The gate is a function of the current registry: open iff writable and bound. -/
 theorem c03_gate_iff (w : W) (p : Nat) (lf : LF) (d : Dg) :
@@ -60,18 +65,26 @@ theorem c03_gate_iff (w : W) (p : Nat) (lf : LF) (d : Dg) :
     peer gone — holds (server, connection, client) at that moment. No caching can hide: the gate is a function of
     the state. `opOk`: every "entity added" notification announces at least one feature of the entity. -/
 theorem c03_follows_registry (w0 : W) (ops : List Op) (hu : w0.cfg.unbindDisjunct = false)
-    (he : w0.cfg.entRemovalAnyPeer = false) (h0 : w0.binds = []) (hok : ∀ op ∈ ops, opOk w0.fresh op)
+    (he : w0.cfg.entRemovalAnyPeer = false) (h0 : w0.binds = []) (hF : InvF w0) (hok : ∀ op ∈ ops, opOk w0.fresh op)
     (p : Nat) (lf : LF) (d : Dg) :
     gateOk (run w0 ops) p lf d = (writable lf d.fn && specReg (trace w0 ops) (d.dst, p, d.src)) :=
-  Spine.Disp.c03_follows_registry w0 ops hu he h0 hok p lf d
+  Spine.Disp.c03_follows_registry w0 ops hu he h0 hF hok p lf d
 
 /-- Security direction, every member of the family (also the code as written), all histories: a write is never let
     through unless the SPEC registry holds the binding at that moment — the registry defects lose bindings, they never
     keep a deleted one or one whose holder is gone. -/
-theorem c03_accepted_only_if_registry (w0 : W) (ops : List Op) (h0 : w0.binds = [])
+theorem c03_accepted_only_if_registry (w0 : W) (ops : List Op) (h0 : w0.binds = []) (hF : InvF w0)
     (hok : ∀ op ∈ ops, opOk w0.fresh op) (p : Nat) (lf : LF) (d : Dg) (hg : gateOk (run w0 ops) p lf d = true) :
     writable lf d.fn = true ∧ specReg (trace w0 ops) (d.dst, p, d.src) = true :=
-  Spine.Disp.c03_accepted_only_if_registry w0 ops h0 hok p lf d hg
+  Spine.Disp.c03_accepted_only_if_registry w0 ops h0 hF hok p lf d hg
+
+/-- Re-announcement keeps the registry and keeps it deletable: a repeated discovery reply (`Op.reann`) or a partial
+    "added" notification for a known entity (`Op.entAdd`) changes no binding and no subscription — a registry event
+    `other` in the SPEC — so the delete call that follows is judged by address exactly as before it. -/
+theorem c03_reannounce_keeps_registry (w : W) (p ctr : Nat) (ref : Option Nat) (ack : Bool) (e : List Nat) :
+    (step w (.reann p ctr ref ack)).1.binds = w.binds ∧ (step w (.entAdd p e ctr ack)).1.binds = w.binds ∧
+      evOf w (.reann p ctr ref ack) = .other ∧ evOf w (.entAdd p e ctr ack) = .other :=
+  ⟨(frame_processReann w p ctr ref ack).1, (frame_processEntAdd w p e ctr ack).1, rfl, rfl⟩
 
 /-- REFUTED for the code as written ("accepted once the binding is granted … until it is deleted or the writer's
     device or entity disappears"): peer 2 announces the removal of *its* entity [1] and peer 1's binding, held by
@@ -103,6 +116,26 @@ example :
     gateOk (run cleanW [.conn 1, .call 1 10 true (.bind ([1], 1) ([1], 1) 1), .drop 1, .conn 1]) 1 witLF1 (witD ([1], 1)) = false := by
   decide
 
+example : InvF cleanW := by intro q e h; simp [hasEnt, cleanW, witW] at h
+
+/-- hierarchical entity addresses with a repeated feature number: the binding of [1]/1 does not authorise [1,1]/1 nor
+    the reverse; after a re-announcement (either route) the binding is still deletable and the gate closes -/
+def hierW : W :=
+  { cleanW with fresh := ⟨[⟨[0], 0, [], 9, .special⟩, ⟨[1], 1, [5], 1, .client⟩, ⟨[1, 1], 1, [5], 1, .client⟩], 3, []⟩ }
+def hierD (src : Addr) (dst : Addr) : Dg := { witD dst with src := src }
+example :
+    let bindParent : List Op := [.conn 1, .call 1 10 true (.bind ([1], 1) ([1], 1) 1)]
+    let bindChild : List Op := [.conn 1, .call 1 10 true (.bind ([1, 1], 1) ([1], 1) 1)]
+    gateOk (run hierW bindParent) 1 witLF1 (hierD ([1], 1) ([1], 1)) = true ∧
+    gateOk (run hierW bindParent) 1 witLF1 (hierD ([1, 1], 1) ([1], 1)) = false ∧
+    gateOk (run hierW bindChild) 1 witLF1 (hierD ([1, 1], 1) ([1], 1)) = true ∧
+    gateOk (run hierW bindChild) 1 witLF1 (hierD ([1], 1) ([1], 1)) = false ∧
+    gateOk (run hierW (bindParent ++ [.reann 1 11 (some 2) true])) 1 witLF1 (hierD ([1], 1) ([1], 1)) = true ∧
+    gateOk (run hierW (bindParent ++ [.reann 1 11 (some 2) true, .call 1 12 true (.unbind ([1], 1) ([1], 1))])) 1 witLF1
+      (hierD ([1], 1) ([1], 1)) = false ∧
+    gateOk (run hierW (bindParent ++ [.entAdd 1 [1] 11 true, .call 1 12 true (.unbind ([1], 1) ([1], 1))])) 1 witLF1
+      (hierD ([1], 1) ([1], 1)) = false := by decide
+
 example : ∀ op ∈ witEntOps ++ [Op.entAdd 2 [1] 12 true], opOk cleanW.fresh op := by
   intro op hop
   simp only [witEntOps, List.cons_append, List.nil_append, List.mem_cons, List.not_mem_nil, or_false] at hop
@@ -121,14 +154,14 @@ def exW : W :=
     binds := [(([1], 1), 1, ([1], 1))], subs := [(([1], 1), 2, ([1], 1))] }
 
 example :
-    (processCmd exW 2 (witD ([1], 1))).2 = [(2, .result 50 1 ([1], 1) ([1], 1))] ∧
+    (processCmd exW 2 (witD ([1], 1))).2 = [(2, .result (some 50) 1 ([1], 1) ([1], 1) (some 0))] ∧
     (processCmd exW 2 (witD ([1], 1))).1.written = [] ∧
-    (processCmd exW 1 (witD ([1], 1))).2 = [(2, .notify 5 ([1], 1) ([1], 1)), (1, .result 50 0 ([1], 1) ([1], 1))] ∧
+    (processCmd exW 1 (witD ([1], 1))).2 = [(2, .notify 5 ([1], 1) ([1], 1) 7), (1, .result (some 50) 0 ([1], 1) ([1], 1) (some 0))] ∧
     (processCmd exW 1 (witD ([1], 1))).1.written = [(([1], 1), 5)] := by decide
 
 /-- a write that passes the gate but whose payload the update engine rejects (`bad`) is as silent as a denied one -/
 example :
-    (processCmd exW 1 { witD ([1], 1) with bad := true }).2 = [(1, .result 50 1 ([1], 1) ([1], 1))] ∧
+    (processCmd exW 1 { witD ([1], 1) with bad := true }).2 = [(1, .result (some 50) 1 ([1], 1) ([1], 1) (some 0))] ∧
     (processCmd exW 1 { witD ([1], 1) with bad := true }).1.written = [] := by decide
 
 end Spine.Props.C03
